@@ -15,19 +15,19 @@ git checkout -q -- .
 cargo test --offline $FEAT --test demo_seed >/tmp/seed_clean.log 2>&1; CLEAN=$?
 rm -f tests/demo_seed.rs
 echo "$PID-$X: suite with change rc=$SUITE passed=$NT (want 0 / 49); demo with change rc=$MUT (want !=0); demo on clean tree rc=$CLEAN (want 0)"
-D=/verif/seeded/$PID-$X
+D=/verif/seeded/$PID-$X$SUFFIX
 if [ $CLEAN -eq 0 ] && [ $MUT -ne 0 ] && [ $SUITE -eq 0 ]; then
   mkdir -p $D; cp $S/patch.diff $S/demo.rs $D/; cp $S/meta.txt $D/meta.txt
   python3 - "$PID" "$X" "$NT" <<'PY'
 import json,sys
 pid,x,nt=sys.argv[1:4]
-d='/verif/seeded/%s-%s'%(pid,x)
+d="/verif/seeded/%s-%s%s"%(pid,x,__import__("os").environ.get("SUFFIX",""))
 json.dump({'breaks':[pid],'origin':'written by an independent sub-agent that saw only the property text and a scratch worktree',
  'needs_to_manifest':open(d+'/meta.txt').read()[:1500],
  'confirmed':'builder re-ran in the scratch worktree: existing suite with the change passes (%s tests incl. doctests), demo.rs fails with the change and passes without'%nt},open(d+'/meta.json','w'),indent=1)
 PY
   cd /verif
-  for c in $CHECKS; do tools/seedtest.sh $PID-$X $c | tail -2; done
+  for c in $CHECKS; do tools/seedtest.sh $PID-$X$SUFFIX $c | tail -2; done
 else
   echo "NOT CONFIRMED"
 fi
